@@ -179,6 +179,12 @@ class P(Prop):
         if o1 != "ok":
             self.fail("search", "full-parser-endmodule-substring", f"full parser raised {o1} on a net named endmodule_f", {"text": "endmodule_f"})
 
+        # K8e (known, the C14 face of K8): the library's own writer emits `wire tie_0; assign tie_0 = 1'b0;` for a constant node
+        # called tie_0 (the name the full reader gives its constants); the full parser ignores that assignment (the net IS its
+        # constant), the fast parser builds tie0 -> buf tie_0: same function, one node more
+        self.compare("module m (a, o);\n input a;\n output o;\n wire tie_0;\n or g1(o, a, tie_0);\n assign tie_0 = 1'b0;\nendmodule\n",
+                     "m", bbs, ":net-named-tie")
+
     def search(self, n):
         for i in range(n):
             m, text = self.gen_case()
